@@ -151,6 +151,8 @@ func (e *Engine) vpCall(st *State, name string, args []Value, site ssa.Instructi
 		mx := KReal(maxF64)
 		e.sol.Assert(And(Le(RSub(rZero, mx), v), Le(v, mx)))
 		e.sol.Assert(Implies(Not(Eq(stripFacts(kt), KInt64(0))), Eq(v, rZero)))
+		// representable magnitudes only: zero or at least the smallest denormal
+		e.sol.Assert(Or(Eq(v, rZero), Le(KReal(minDenorm), v), Le(v, RSub(rZero, KReal(minDenorm)))))
 		in.Term, in.FKind = v, kt
 		ret(st, FloatVal{Kind: kt, V: v})
 	case "Param":
@@ -238,6 +240,12 @@ func (e *Engine) vpCall(st *State, name string, args []Value, site ssa.Instructi
 			return true
 		}
 		ret(st, fv.Bind[0])
+	case "CutBefore":
+		// symbolic execution leaves the function that is about to call the named function
+		// (the rest of that function is outside this harness' claim); natively a no-op
+		st.ghost["cut:"+constStr(args[0], "vp.CutBefore callee")] = tTrue
+		e.res.Assumptions["cut: execution of the caller ends before its call to "+constStr(args[0], "")]++
+		ret(st, nil)
 	case "Observe":
 		ret(st, nil)
 	default:
